@@ -38,7 +38,7 @@ def goenv():
     e = dict(os.environ)
     e.update({
         "GOFLAGS": "-mod=mod", "GOPROXY": "off", "GOSUMDB": "off", "GOTOOLCHAIN": "local",
-        "GOCACHE": os.path.join(ROOT, ".cache", "go-build"),
+        "GOCACHE": os.environ.get("GOCACHE_SHARED") or os.path.join(ROOT, ".cache", "go-build"),
         "CGO_ENABLED": e.get("CGO_ENABLED", "0"),
         "VERIF_ROOT": ROOT,
     })
